@@ -55,7 +55,7 @@ def bounds(cfg):
     if cfg.quick:
         return dict(depth=4, tables=[(1, 2), (2, 1), (3, 0), (3, 2)], singles=SINGLES, batches=BATCHES[:3],
                     indexes=INDEXES[:3], sums=('a',))
-    return dict(depth=5, tables=[(1, 1), (1, 2), (2, 0), (2, 2), (3, 0), (3, 1), (3, 2)], singles=SINGLES,
+    return dict(depth=5, tables=[(1, 2), (2, 1), (2, 2), (3, 0), (3, 2)], singles=SINGLES,
                 batches=BATCHES, indexes=INDEXES, sums=('a', 'b'))
 
 
